@@ -8,10 +8,13 @@ from .c03 import atoms, fmt, strip_cond
 
 EXPLANATION = (
     "Who-may-write census of Decoder.offset / Decoder.limit from the type-checked MIR (only word() and string() advance; only "
-    "set_limit/clear_limit/word/string touch the limit; both fields private); every advance of the offset must sit under a "
-    "condition that bounds it by the buffer length (R-ADV); decision table of word() (limit check, bounds check, failure leaves "
-    "the offset untouched and reports it); the limit bookkeeping functions by shape; string()'s scan window clamped to buffer and "
-    "limit and charged to the limit; every typed request delegates to word() exactly once per word.")
+    "set_limit/clear_limit/word/string touch the limit; both fields private); word() and the limit functions interpreted over "
+    "(limit class x remaining-bytes class) with offsets as linear terms; string(), words(n), bit64 and the one-word requests "
+    "evaluated state by state in a stated small scope (0..13 bytes left, limit none / 0..4 / 2^62 / 2^64-1, first NUL at every "
+    "position with zero padding or non-zero bytes after it, valid / invalid UTF-8; bytes are symbols, so a result names the buffer "
+    "bytes it was built from) against the statement: exact bytes, advance by whole words inside the buffer, limit charged, failures "
+    "leave offset and limit untouched, no out-of-range slice or usize overflow. All conditions compare terms of period 4, so the scope "
+    "covers every ordering of them; it is not a proof over all lengths.")
 EXHAUSTIVE = True
 
 DEC = "rspirv::binary::decoder"
